@@ -284,6 +284,10 @@ class FuncInfo(object):
 #   C3  `x = x <op> E` for a local name x                 ->  `x <op>= E`
 #   C4  `x: T = E` (annotated assignment with a value)    ->  `x = E`
 #   C5  `a < b` / `a <= b` (single comparison)            ->  `b > a` / `b >= a`
+#   C7  `t = a.b.c` (t bound once; a plain attribute chain none of whose
+#       attributes is assigned in the function, rooted at a name that is not
+#       rebound)                                          ->  a.b.c wherever t is read
+#       (an analysis normal form: "bind the repeated chain to a local")
 #   C6  `t = E` immediately followed by a statement in which t (bound once, read
 #       once in the function) is the first thing evaluated apart from plain
 #       name / attribute / constant loads                 ->  E substituted for t
@@ -357,9 +361,8 @@ def _first_use_expr(st):
   statement kind is not handled)."""
   if isinstance(st, (ast.Return, ast.Expr)):
     return st.value
-  if isinstance(st, ast.Assign) and all(isinstance(t, ast.Name)
-                                        for t in st.targets):
-    return st.value
+  if isinstance(st, ast.Assign):
+    return st.value  # the right-hand side is evaluated before any target
   if isinstance(st, ast.If):
     return st.test
   if isinstance(st, ast.Raise):
@@ -424,7 +427,90 @@ def _inline_temp(name, value, st):
   return False
 
 
+def _chain(e):
+  parts = []
+  while isinstance(e, ast.Attribute):
+    parts.append(e.attr)
+    e = e.value
+  if isinstance(e, ast.Name) and parts:
+    return e.id, parts
+  return None
+
+
+class _AliasSubst(ast.NodeTransformer):
+
+  def __init__(self, aliases):
+    self.aliases = aliases
+
+  def visit_Name(self, n):
+    if isinstance(n.ctx, ast.Load) and n.id in self.aliases:
+      return ast.copy_location(copy.deepcopy(self.aliases[n.id]), n)
+    return n
+
+
+def _propagate_aliases(fn):
+  loads, stores = _name_uses(fn)
+  attr_stores = set()
+  for n in ast.walk(fn):
+    if isinstance(n, ast.Attribute) and isinstance(n.ctx, (ast.Store, ast.Del)):
+      attr_stores.add(n.attr)
+  params = {a.arg for a in fn.args.args + fn.args.kwonlyargs +
+            fn.args.posonlyargs}
+  aliases = {}
+  owners = []
+  # a value read inside a `with` block (typically under a lock) and used
+  # after it is a snapshot, not an alias
+  in_with = {}
+  for w in ast.walk(fn):
+    if isinstance(w, (ast.With, ast.AsyncWith)):
+      inner_loads = {}
+      for x in ast.walk(w):
+        if isinstance(x, ast.Name) and isinstance(x.ctx, ast.Load):
+          inner_loads[x.id] = inner_loads.get(x.id, 0) + 1
+      for x in ast.walk(w):
+        if isinstance(x, ast.Assign) and len(x.targets) == 1 and isinstance(
+            x.targets[0], ast.Name):
+          in_with.setdefault(id(x), []).append(inner_loads)
+  for n in ast.walk(fn):
+    if isinstance(n, ast.Assign) and len(n.targets) == 1 and isinstance(
+        n.targets[0], ast.Name):
+      t = n.targets[0].id
+      if any(il.get(t, 0) != loads.get(t, 0) for il in in_with.get(id(n), [])):
+        continue
+      ch = _chain(n.value)
+      if ch is None or t in params or stores.get(t, 0) != 1 or \
+          loads.get(t, 0) < 2:
+        continue  # single loads are C6's business
+      root, parts = ch
+      if stores.get(root, 0) > (1 if root in params else 0):
+        continue
+      if any(p in attr_stores for p in parts):
+        continue
+      aliases[t] = n.value
+      owners.append(n)
+  if not aliases:
+    return
+  # nested functions / comprehensions may capture the name: still a plain read
+  sub = _AliasSubst(aliases)
+  for field, val in ast.iter_fields(fn):
+    if field == 'body':
+      fn.body = [sub.visit(s) for s in fn.body]
+  # drop the defining assignments
+  for parent in ast.walk(fn):
+    for field in ('body', 'orelse', 'finalbody'):
+      blk = getattr(parent, field, None)
+      if isinstance(blk, list):
+        keep = [s for s in blk if not any(s is o for o in owners)]
+        if len(keep) != len(blk):
+          blk[:] = keep or [ast.Pass()]
+    for h in getattr(parent, 'handlers', None) or []:
+      keep = [s for s in h.body if not any(s is o for o in owners)]
+      if len(keep) != len(h.body):
+        h.body[:] = keep or [ast.Pass()]
+
+
 def _canon_function(fn):
+  _propagate_aliases(fn)
   loads, stores = _name_uses(fn)
   stack = [fn]
   while stack:
@@ -481,12 +567,36 @@ def canonicalise(tree):
   return tree
 
 
+_ANCHORS = None
+
+
+def load_anchors():
+  """(relpath, qualname) of the functions the rules are anchored in: never
+  inlined into their callers (sa/anchors.json, regenerated by
+  tools/gen_anchors.py from what the rules request on the current tree)."""
+  global _ANCHORS  # pylint: disable=global-statement
+  if _ANCHORS is None:
+    path = os.path.join(os.path.dirname(os.path.abspath(__file__)),
+                        'anchors.json')
+    try:
+      with open(path, encoding='utf-8') as f:
+        _ANCHORS = frozenset((a, b) for a, b in json.load(f))
+    except (OSError, ValueError) as e:
+      raise AnalysisError('anchors table unreadable: %s' % e)
+  return _ANCHORS
+
+
 class Module(object):
 
-  def __init__(self, relpath, src):
+  def __init__(self, relpath, src, anchors=None, foreign_text=None):
     self.relpath = relpath
     self.src = src
     self.tree = ast.parse(src, filename=relpath)
+    self.inline_log = []
+    if anchors is not None:
+      from sa import inline  # pylint: disable=g-import-not-at-top
+      self.inline_log = inline.inline_module(
+          self.tree, relpath, anchors, foreign_text or (lambda name: False))
     canonicalise(self.tree)
     self.funcs = {}  # qualname -> [FuncInfo]  (property getter/setter share)
     self.classes = {}  # qualname -> ClassDef
@@ -545,7 +655,7 @@ class Module(object):
 class Repo(object):
   """All Python sources under <root>/openhtf (plus examples/bin/test lazily)."""
 
-  def __init__(self, root=None, overrides=None):
+  def __init__(self, root=None, overrides=None, inline_helpers=True):
     self.root = root or REPO_DIR
     self.overrides = overrides or {}
     self.accessed = []  # FuncInfo objects requested by rules (dead-code check)
@@ -554,6 +664,7 @@ class Repo(object):
     pkg = os.path.join(self.root, 'openhtf')
     if not os.path.isdir(pkg):
       raise AnalysisError('repository not found at %s' % self.root)
+    sources = {}
     for dirpath, dirnames, filenames in os.walk(pkg):
       dirnames[:] = sorted(d for d in dirnames
                            if d not in ('__pycache__', 'node_modules', 'dist'))
@@ -566,10 +677,15 @@ class Repo(object):
           else:
             with open(full, encoding='utf-8') as f:
               src = f.read()
-          try:
-            self.modules[rel] = Module(rel, src)
-          except SyntaxError as e:
-            raise AnalysisError('parse error in %s: %s' % (rel, e))
+          sources[rel] = src
+    anchors = load_anchors() if inline_helpers else None
+    for rel in sorted(sources):
+      def foreign_text(text, _rel=rel):
+        return any(text in s for r, s in sources.items() if r != _rel)
+      try:
+        self.modules[rel] = Module(rel, sources[rel], anchors, foreign_text)
+      except SyntaxError as e:
+        raise AnalysisError('parse error in %s: %s' % (rel, e))
     self.n_functions = sum(
         sum(len(v) for v in m.funcs.values()) for m in self.modules.values())
 
